@@ -649,6 +649,7 @@ class RetentionObserver:
         self.tasks: dict[int, Any] = {}
         self.weak: dict[int, Any] = {}
         self.violations: list[dict] = []
+        self.spy = None               # the SpyRunner (set by it)
         self.checks = 0
         self.releases_seen = 0
         self.retained_seen = 0
@@ -691,6 +692,32 @@ class RetentionObserver:
                     if self._has(spy, d) is False:
                         self.violations.append(V('C17', 'released-too-early', f'result of node {d} was gone before its dependent {n} '
                                                  f'was handed to the coordinator'))
+
+    def at_begin(self, task):
+        """Serial backend only (tasks run one after the other in the caller): when a task begins, the
+        completion of every task that ended before it has been handed to the coordinator, so results
+        whose dependents have all ended (or failed) must be gone by now."""
+        spy = self.spy
+        if spy is None:
+            return
+        self.tasks.setdefault(task.ident, task)
+        ended_ok = {e[1] for e in self.rec.events if e[0] == 'end'}
+        over = ended_ok | {e[2] for e in self.rec.events if e[0] == 'fault' and e[1] == 'raise'} \
+            | {e[1] for e in self.rec.events if e[0] == 'readfail'}
+        requested = self._returned_nodes()
+        for d in sorted(ended_ok):
+            if d in requested or d == task.ident or d not in self.tasks:
+                continue
+            deps_of = self.dependents_in_plan(d)
+            if not deps_of or any(x not in over for x in deps_of):
+                continue
+            self.checks += 1
+            if self._has(spy, d):
+                self.violations.append(V('C17', 'not-released', f'when node {task.ident} began (serial backend), the result of node {d} '
+                                         f'was still held although every direct dependent {deps_of} had ended before', at_begin=True))
+
+    def note_task(self, task):
+        self.tasks.setdefault(task.ident, task)
 
     def after_processed(self, spy, task, ok: bool):
         """The coordinator has processed this completion and asks for the next."""
